@@ -207,8 +207,9 @@ CM_ATOMS = {
                                                           "hi": 10}]}, (0, 200)),
     "texttable": ("A_UINT32", "A_UNICODE2STRING", {"cat": "TEXTTABLE", "scales": [
         {"lo": 0, "hi": 0, "const": "off"}, {"lo": 1, "hi": 1, "const": "on"},
-        {"lo": 4, "hi": 9, "const": "range", "inv": 6}, {"lo": 20, "hi": 20, "const": "edge"}]},
-        (0, 20)),
+        {"lo": 4, "hi": 9, "const": "range", "inv": 6}, {"lo": 20, "hi": 20, "const": "edge"},
+        {"lo": 30, "hi": 30, "const": ""}]},   # the empty text is a text
+        (0, 30)),
 }
 
 
@@ -310,6 +311,11 @@ def run_atom(sx, cfg, env):
             sx.cover("rejected")
             sx.observe("outcome", "rejected:" + ("EncodeError" if type(e).__name__ == "EncodeError"
                                                  else "OdxError"))
+            if prop == "C02" and dtp == "A_FLOAT32" and a.get("dct", "std") == "std":
+                # every double that rounds to a finite binary32 number is representable (rounding is
+                # the wire format); 2^128 - 2^103 is the first one that rounds to infinity
+                sx.require(s_not(s_and(v > -3.4028235677973366e+38, v < 3.4028235677973366e+38)),
+                           "representable-value-is-encoded")
             if prop == "C02":
                 if indom is not None:
                     sx.fail("representable-value-is-encoded")
@@ -608,6 +614,15 @@ def atoms(tier, seed):
                                         tail=True, bitpos=0, bytepos=None, hl=hl, slen=slen))
                         out.append(dict(dt=dtp, enc=None, dct="leading", bl=8, bitpos=0,
                                         bytepos=None, hl=hl, slen=slen))
+    # IS-HIGHLOW-BYTE-ORDER absent (the default is high-low) where more than one byte is involved
+    for dtp in ("A_UINT32", "A_INT32"):
+        for bl, bitpos in ((16, 0), (12, 3), (32, 0)):
+            out.append(dict(dt=dtp, enc=None, bl=bl, bitpos=bitpos, hl=None, bytepos=None))
+    for lbl in (12, 16):
+        for x in (0, 1, 3):
+            out.append(dict(dt="A_BYTEFIELD", enc=None, dct="leading", bl=lbl, bitpos=0, bytepos=None,
+                            hl=None, vlen=x))
+    out.append(dict(dt="A_UNICODE2STRING", enc=None, bl=32, bitpos=0, hl=None, bytepos=None, sidx=9))
     # explicit BASE-TYPE-ENCODING on the variable-length types
     for dtp, enc in (("A_ASCIISTRING", "ISO-8859-2"), ("A_ASCIISTRING", "WINDOWS-1252"),
                      ("A_ASCIISTRING", "UTF-8"), ("A_UNICODE2STRING", "ISO-8859-2"),
